@@ -270,14 +270,20 @@ def tolerances(fam, impl, par, x):
         E2, _ = I.interp_bounds(fam, par, x, h)
         E2 = np.where(np.isin(x, np.arange(I.TABLE_XMIN, I.TABLE_XMAX + h, h)), 0.0, E2)    # exact at the nodes
         cond = np.maximum(I.ref_cond(d, x), I.ref_cond(d, np.sign(x) * (np.abs(x) + h)))
+        # round 2: AT the nodes nothing but the rounding of the table entry t (= log Q for the log-space tables), of its
+        # evaluation and of the scale multiplication remains: floor = X.K * eps * (1 + |t|) (measured: <= 1.3 units) instead of 1e-9
+        node = np.isin(x, np.arange(I.TABLE_XMIN, I.TABLE_XMAX + h, h))
+        with np.errstate(all="ignore"):
+            t = np.abs(np.log(np.abs(r) / (par["scale"] if not par.get("loc") else 1.0))) if fam in ("invgamma", "loginvgamma") else 0.0 * x
+        fl = np.where(node & np.isfinite(t), X.K * I.EPS * (1.0 + t), RTOL)
         if fam == "invgamma":
-            tol = SLACK * np.expm1(E2) * np.abs(r) + 8 * cond + RTOL * np.abs(r)
+            tol = SLACK * np.expm1(E2) * np.abs(r) + 8 * cond + fl * np.abs(r)
         elif fam == "loginvgamma":
-            tol = SLACK * E2 + 8 * cond / np.abs(r) + RTOL * (np.abs(r_cmp) + abs(math.log(par["scale"])) + 1)
+            tol = SLACK * E2 + 8 * cond / np.abs(r) + fl * (np.abs(r_cmp) + abs(math.log(par["scale"])) + 1)
         elif fam == "gamma":
-            tol = SLACK * E2 * par["scale"] + 8 * cond + RTOL * np.abs(r)
+            tol = SLACK * E2 * par["scale"] + 8 * cond + fl * np.abs(r)
         else:
-            tol = SLACK * E2 + 8 * cond + RTOL * np.abs(r)
+            tol = SLACK * E2 + 8 * cond + fl * np.abs(r)
     return r_cmp, tol
 
 
